@@ -1,6 +1,6 @@
 SPECIFICATION Spec
 CONSTANTS
-    Mode = "edges"
+    Mode = "mc"
     Depth = 0
     Kinds = {"unary", "prod", "exch"}
     MaxN = 2
@@ -16,4 +16,6 @@ CONSTANTS
     RequireEOS = FALSE
     ExcFirst = FALSE
 VIEW View
+INVARIANTS TypeOK DeliveredIsPrefix CleanEndIsComplete NoCursorTwice
+PROPERTIES ReturnedBatches TypedErrors RefusesAfterAmbiguous AmbiguityIsRecorded DamagedIsRejected
 CHECK_DEADLOCK FALSE
